@@ -110,6 +110,8 @@ type vpWorld struct {
 	provClosed  bool
 	hung        bool
 	baseGoroutines int
+	injErr      []int // constructors that returned an injected error during the current API call
+	injPanic    []int
 	fails       []string
 }
 
@@ -239,6 +241,37 @@ func (w *vpWorld) showAny(x any) string {
 		return "[" + strings.Join(parts, " ") + "]"
 	}
 	return fmt.Sprintf("?%T", x)
+}
+
+// monitorInjected (C15): a constructor that returned an error or panicked during this call makes the call
+// fail, and the failure exposes the constructor's own error / the panic value
+func (w *vpWorld) monitorInjected(what string, err error) {
+	defer func() { w.injErr, w.injPanic = nil, nil }()
+	if len(w.injErr) == 0 && len(w.injPanic) == 0 {
+		return
+	}
+	if err == nil {
+		w.fail("C15,C04", "%s succeeded although constructor(s) %v returned an error / %v panicked during it", what, w.injErr, w.injPanic)
+		return
+	}
+	for _, c := range w.injErr {
+		var inj *vpInjected
+		if !errors.As(err, &inj) || inj.ctor != c {
+			w.fail("C15", "%s: constructor %d returned an error, but that error is not reachable with errors.As from %q", what, c, err.Error())
+		}
+		var ie *ConstructorInvocationError
+		if !errors.As(err, &ie) {
+			w.fail("C15", "%s: constructor %d returned an error, but no ConstructorInvocationError is on the chain", what, c)
+		}
+	}
+	for _, c := range w.injPanic {
+		var pe *ConstructorPanicError
+		if !errors.As(err, &pe) {
+			w.fail("C15", "%s: constructor %d panicked, but no ConstructorPanicError is on the chain of %q", what, c, err.Error())
+		} else if p, ok := pe.Panic.(*vpInjected); !ok || p.ctor != c {
+			w.fail("C15", "%s: constructor %d panicked, the reported panic value is %v", what, c, pe.Panic)
+		}
+	}
 }
 
 // canonical error: sorted set of the layers reachable with errors.Is / errors.As
@@ -438,6 +471,7 @@ func (w *vpWorld) makeConstructor(r *vpReg) any {
 		}
 		switch w.beh[[2]int{ctor, inv}] {
 		case "err":
+			w.injErr = append(w.injErr, ctor)
 			w.evs = append(w.evs, fmt.Sprintf("c%d#%d@s%d!err", ctor, inv, scN))
 			res := make([]reflect.Value, len(out))
 			for i, t := range out {
@@ -446,6 +480,7 @@ func (w *vpWorld) makeConstructor(r *vpReg) any {
 			res[len(out)-1] = reflect.ValueOf(error(&vpInjected{ctor})).Convert(vpErrType)
 			return res
 		case "panic":
+			w.injPanic = append(w.injPanic, ctor)
 			w.evs = append(w.evs, fmt.Sprintf("c%d#%d@s%d!panic", ctor, inv, scN))
 			panic(&vpInjected{ctor})
 		}
@@ -858,6 +893,7 @@ func (r *vpRun) build(w *vpWorld) bool {
 		}
 	}
 	op := strings.TrimSpace("p build " + strings.Join(order, " "))
+	w.monitorInjected("Build", err)
 	r.monitorVerdict(w, err)
 	if err != nil {
 		r.stats["build_err"]++
@@ -1091,6 +1127,7 @@ func (r *vpRun) createScope(w *vpWorld, from int, ctx int) {
 		r.emit(op, "hang")
 		return
 	}
+	w.monitorInjected("CreateScope", err)
 	if err != nil {
 		// a scope whose creation failed was never handed out: whatever its initializers created must
 		// have been disposed already (C10 / C14 "a failed creation leaves nothing" / C15 "later disposed")
@@ -1207,6 +1244,7 @@ func (r *vpRun) get(w *vpWorld, s int, t reflect.Type, name string) {
 		r.emit(op, map[bool]string{true: "hang", false: "panic"}[w.hung]+w.flushEvents())
 		return
 	}
+	w.monitorInjected("Get", err)
 	if err != nil {
 		r.stats["get_err"]++
 		r.emit(op, w.showErr(err)+w.flushEvents())
@@ -1246,6 +1284,7 @@ func (r *vpRun) getGroup(w *vpWorld, s int, t reflect.Type, group string) {
 		r.emit(op, map[bool]string{true: "hang", false: "panic"}[w.hung]+w.flushEvents())
 		return
 	}
+	w.monitorInjected("GetGroup", err)
 	if err != nil {
 		r.emit(op, w.showErr(err)+w.flushEvents())
 		return
@@ -1324,6 +1363,31 @@ func (r *vpRun) closeScope(w *vpWorld, s int, parentOf map[int]int) {
 		w.fail("C12", "Close(s%d): some Close failed=%v but returned error=%v", s, bad, err)
 	}
 	w.monitorCloseOrder("Scope.Close")
+	// C14: once Close has returned - with or without a disposal error - neither the provider nor the parent
+	// keeps the scope
+	if si, ok := sc.(*scope); ok {
+		p := si.rootProvider
+		p.scopesMu.Lock()
+		_, tracked := p.scopes[si]
+		p.scopesMu.Unlock()
+		if tracked {
+			w.fail("C14", "the provider still tracks scope s%d after its Close returned (%v)", s, err)
+		}
+		if par := si.parentScope; par != nil {
+			par.childrenMu.Lock()
+			_, held := par.children[si]
+			par.childrenMu.Unlock()
+			if held {
+				w.fail("C14", "the parent still references scope s%d after its Close returned (%v)", s, err)
+			}
+		}
+		si.instancesMu.RLock()
+		inst := si.instances
+		si.instancesMu.RUnlock()
+		if inst != nil {
+			w.fail("C14", "closed scope s%d still holds its instance cache (%v)", s, err)
+		}
+	}
 	// C13: every scope in the subtree refuses further use
 	for n := range w.closedSc {
 		if h, ok := w.scopes[n]; ok {
